@@ -408,6 +408,34 @@ def check_inplace(run, cx, cfg):
             continue
         ps = returning(cx.paths(fn, stop=[target]))
         bad = None
+        if want is None and not any(rp(e) == target for p0 in ps for _, e in call_events(p0)):
+            # equilibrium() with its own loop: every element of the given slice, in place, := EQUILIBRIUM
+            nps = normal_paths(cx.paths(fn))
+            kinds = set()
+            for p0 in nps:
+                loops = iterator_loops(p0)
+                if len(loops) != 1:
+                    bad = 'must be a single call to %s (or one loop over the slice)' % target
+                    break
+                it = loops[0]['iter']
+                src = p0['events'][it[1]] if it[0] == 'ret' else None
+                if not src or not ('IntoIterator for &' in (rp(src) or '') or rp(src) == SL + 'iter_mut') or unre(src['args'][0]) != ('param', 1):
+                    bad = 'must iterate the given slice mutably'
+                    break
+                nk = loops[0]['next']
+                d = dict(cond_facts(p0)).get(('discr', ('ret', nk)))
+                if d == ('int', 1, 'isize'):
+                    el = ('field', ('variant', ('ret', nk), 1), 0)
+                    w = p0['writes'].get((('P', el), ()))
+                    if w is None or not (w[0] == 'assoc' and w[2] == 'EQUILIBRIUM') or [1 for k, e in call_events(p0) if k > nk]:
+                        bad = 'each frame must be set to F::EQUILIBRIUM'
+                    kinds.add('iter')
+                else:
+                    kinds.add('exit')
+            if not bad and kinds != {'iter', 'exit'}:
+                bad = 'missing loop case'
+            run.check(bad is None, 'inplace.op', fn, cfg, bad or '', where=where(body))
+            continue
         if len(ps) != 1 or len(call_events(ps[0])) != 1 or rp(call_events(ps[0])[0][1]) != target:
             bad = 'must be a single call to %s' % target
         else:
